@@ -57,6 +57,19 @@ def patternConditions : List (String × String × String) := [
   ("VirtualMemoryArray", "read", "is_written == 0; length == 0"),
   ("VirtualMemoryArray", "write", "self.is_written == 0; self.depth is None")
 ]
+/-- members of `constants.LinkedLayerType`, sorted -/
+def linkedLayerTypes : List (List UInt8) := [[108, 105, 70, 65], [108, 105, 70, 68], [108, 105, 70, 69]]
+def linkedData : List UInt8 := [108, 105, 70, 68]
+def linkedExternal : List UInt8 := [108, 105, 70, 69]
+def linkedAlias : List UInt8 := [108, 105, 70, 65]
+/-- `range_(min, max)` validator of `LinkedLayer.version` -/
+def linkedVersionMin : Nat := 1
+def linkedVersionMax : Nat := 7
+/-- the tests of the `if` statements of `LinkedLayer.read` / `write`, in source order -/
+def linkedConditions : List (String × String × String) := [
+  ("LinkedLayer", "read", "open_file; kind == LinkedLayerType.EXTERNAL; version > 3; version > 2; kind == LinkedLayerType.ALIAS; kind == LinkedLayerType.DATA; version >= 5; version >= 6; version >= 7; kind == LinkedLayerType.EXTERNAL and version == 2"),
+  ("LinkedLayer", "write", "self.open_file is not None; self.kind == LinkedLayerType.EXTERNAL; self.version > 3; self.version > 2; self.kind == LinkedLayerType.ALIAS; self.kind == LinkedLayerType.DATA; self.child_id is not None; self.mod_time is not None; self.lock_state is not None; self.kind == LinkedLayerType.EXTERNAL and self.version == 2")
+]
 /-- unit2: `tagged_blocks.TYPES` restricted to the modelled classes: (key, class name), sorted -/
 def unit2Registry : List (List UInt8 × String) := [
   ([65, 110, 110, 111], "Annotations"),
@@ -101,6 +114,13 @@ def unit4Registry : List (List UInt8 × String) := [
   ([80, 97, 116, 50], "Patterns"),
   ([80, 97, 116, 51], "Patterns"),
   ([80, 97, 116, 116], "Patterns")
+]
+/-- unit5: `tagged_blocks.TYPES` restricted to the modelled classes: (key, class name), sorted -/
+def unit5Registry : List (List UInt8 × String) := [
+  ([108, 110, 107, 50], "LinkedLayers"),
+  ([108, 110, 107, 51], "LinkedLayers"),
+  ([108, 110, 107, 68], "LinkedLayers"),
+  ([108, 110, 107, 69], "LinkedLayers")
 ]
 /-- unit1: calls of utils primitives (class, method, primitive, arguments), in source order -/
 def unit1Calls : List (String × String × String × String) := [
@@ -286,5 +306,36 @@ def unit4Calls : List (String × String × String × String) := [
   ("VirtualMemoryArray", "_write_body", "write_fmt", "fp, '4I', *self.rectangle"),
   ("VirtualMemoryArray", "_write_body", "write_fmt", "fp, 'HB', self.pixel_depth, self.compression.value"),
   ("VirtualMemoryArray", "_write_body", "write_bytes", "fp, self.data")
+]
+/-- unit5: calls of utils primitives (class, method, primitive, arguments), in source order -/
+def unit5Calls : List (String × String × String × String) := [
+  ("LinkedLayers", "read", "is_readable", "fp, 8"),
+  ("LinkedLayers", "read", "read_length_block", "fp, fmt='Q', padding=4"),
+  ("LinkedLayers", "write", "write_length_block", "fp, item.write, fmt='Q', padding=4"),
+  ("LinkedLayer", "read", "read_fmt", "'4s', fp"),
+  ("LinkedLayer", "read", "read_fmt", "'I', fp"),
+  ("LinkedLayer", "read", "read_pascal_string", "fp, 'macroman', padding=1"),
+  ("LinkedLayer", "read", "read_unicode_string", "fp"),
+  ("LinkedLayer", "read", "read_fmt", "'4s4sQB', fp"),
+  ("LinkedLayer", "read", "read_fmt", "'I4Bd', fp"),
+  ("LinkedLayer", "read", "read_fmt", "'Q', fp"),
+  ("LinkedLayer", "read", "read_fmt", "'8x', fp"),
+  ("LinkedLayer", "read", "read_unicode_string", "fp"),
+  ("LinkedLayer", "read", "read_fmt", "'d', fp"),
+  ("LinkedLayer", "read", "read_fmt", "'B', fp"),
+  ("LinkedLayer", "write", "write_fmt", "fp, '4sI', self.kind.value, self.version"),
+  ("LinkedLayer", "write", "write_pascal_string", "fp, self.uuid, 'macroman', padding=1"),
+  ("LinkedLayer", "write", "write_unicode_string", "fp, self.filename"),
+  ("LinkedLayer", "write", "write_fmt", "fp, '4s4sQB', self.filetype, self.creator, len(self.data) if self.data is not None else 0, self.open_file is not None"),
+  ("LinkedLayer", "write", "write_fmt", "fp, 'I4Bd', *self.timestamp"),
+  ("LinkedLayer", "write", "write_fmt", "fp, 'Q', self.filesize"),
+  ("LinkedLayer", "write", "write_bytes", "fp, self.data"),
+  ("LinkedLayer", "write", "write_fmt", "fp, '8x'"),
+  ("LinkedLayer", "write", "write_bytes", "fp, self.data"),
+  ("LinkedLayer", "write", "write_unicode_string", "fp, self.child_id"),
+  ("LinkedLayer", "write", "write_fmt", "fp, 'd', self.mod_time"),
+  ("LinkedLayer", "write", "write_fmt", "fp, 'B', self.lock_state"),
+  ("LinkedLayer", "write", "write_bytes", "fp, self.data"),
+  ("LinkedLayer", "write", "write_padding", "fp, written, padding")
 ]
 end PsdVerif.Generated.Payload
